@@ -126,5 +126,7 @@ impl GroupValues for GroupValuesBytesView {
         // in theory we could potentially avoid this reallocation and clear the
         // contents of the maps, but for now we just reset the map from the beginning
         self.map.take();
+        // no group survives a clear: group ids restart from zero
+        self.num_groups = 0;
     }
 }
